@@ -6,14 +6,22 @@
                                      runs on `Full.inputOf alg p` (size, defect, resolution verdicts computed by the numeric
                                      solver model at Float on the data set the object holds); the line is echoed only if
                                      `FInfo.agrees` (same size, same defect), else `info-does-not-describe-the-problem …`
-    envinfo …                        facts for the envelope solver inside Adj (echoed)
+                                     Round 9, adj entry: the chol / gso / svd machines inside `Adj` run on
+                                     `Full.inputOf alg q`, `q` = the homogenised system `(A_dot, b_dot)` the numeric model
+                                     (`Ls.AdjM.homogenise`, `dotProblem`) computes from the Float problem — what the solver
+                                     inside `Adj` is really given; an `info chol|gso|svd` line is echoed only if
+                                     `FInfo.agrees alg q`.  If the model's homogenisation fails: the probe's nullity and
+                                     the length test (`resolvesDefault`), as before
+    envinfo …                        facts for the envelope solver inside Adj (echoed); its resolution facts come from the
+                                     numeric problem (`Info.toInputOf`: `resolvesP p`, as Driver/EnvState.lean)
     state                            discrete state as GamaVerifProbe prints it
     x r rtr defect qxx qbb qbx lindep min_x_all min_x reset set_alg, fresh <query>
   The discrete state comes from the state machine.  A numeric answer is printed through the
   history-free models (Gama.Ls.solverOf / adjSolve) only if the symbolic answer of the state
   machine equals the history-free specification; otherwise `stale …` (never on a tree for which
   the theorems of Props/C04Full.lean hold), `after-throw` when the answer is read from artefacts
-  a BadRegularization left half-done (outside the property's quantifier; the comparator only
+  a BadRegularization left half-done (the `Pending` state of `full_history_free_across_inputs`, where the object
+  provably differs from a fresh one; outside `CfgOk` of the `…_resolving` theorems; the comparator only
   checks that the implementation does not throw there), `not-modelled` when the numeric model
   does not cover the query.
 
@@ -83,6 +91,11 @@ structure St where
   env : Option Info := none
   /-- solver entry (round 6): `Full.inputOf (algorithm of the object) (current problem)` — set by `new` / `reset_new` -/
   finp : Full.Input := { n := 0, nullity := 0, resolves := fun _ => true }
+  /-- adj entry (round 9): the system the full-matrix solver inside `Adj` is given for the current data —
+      `dotProblem p A_dot b_dot` of the numeric model's homogenisation; `none`: the model's homogenisation fails -/
+  dot : Option (Problem Float) := none
+  /-- adj entry (round 9): `Full.inputOf alg dot` for chol, gso, svd — set by `new … adj` / `reset_new` -/
+  ain : Option (Full.Input × Full.Input × Full.Input) := none
 
 def b01 (x : Bool) : String := if x then "1" else "0"
 def showList (l : List Nat) : String := s!"{l.length}" ++ l.foldl (fun a i => a ++ s!" {i}") ""
@@ -209,12 +222,25 @@ def parseAOp (ts : List String) : Option AOp :=
   | ["reset"] => some .set
   | _ => none
 
-/-- ADJ ENTRY ONLY (round 6: the solver entry asks the numeric model, `Full.resolvesF`): the adj generator stores lists
-    that resolve the defect -/
+/-- ADJ ENTRY, FALLBACK ONLY (the numeric model's homogenisation fails, or no `envinfo` line yet): a length test —
+    the adj generator stores lists that resolve the defect.  Otherwise the numeric model is asked (`Full.resolvesF` on
+    the homogenised system, `resolvesP` on the problem). -/
 def resolvesDefault (nullity : Nat) (l : List Nat) : Bool := decide (nullity ≤ (sortDedup l).length)
 
-/-- adj entry only (the solver inside `Adj` is given the homogenised system; its facts still come from the probe) -/
+/-- adj entry, fallback only (facts from the probe) -/
 def fInput (n nullity : Nat) : Full.Input := { n := n, nullity := nullity, resolves := resolvesDefault nullity }
+
+/-- adj entry (round 9): the problem the solver inside `Adj` really gets — the homogenised `(A_dot, b_dot)` as a
+    unit-covariance problem (`Ls.adjFull` runs `solverOf alg` on exactly this, with `regOf p.reg`; `Full.inputOf`
+    does not look at `reg`) -/
+def dotOf (p : Problem Float) : Option (Problem Float) :=
+  match Gama.Ls.AdjM.homogenise p with
+  | .ok (Ad, bd) => some (Gama.Ls.AdjM.dotProblem p Ad bd (Gama.Ls.AdjM.regOf p.reg))
+  | .error _ => none
+
+/-- … and the symbolic inputs OF that problem for the three full-matrix machines (`adj_driver_input_is_instance`) -/
+def ainOf (q : Problem Float) : Full.Input × Full.Input × Full.Input :=
+  (Full.inputOf .chol q, Full.inputOf .gso q, Full.inputOf .svd q)
 
 /-- solver entry: the symbolic input OF the numeric problem (`full_driver_input_is_instance`) -/
 def objAlg : Obj → Option Ls.Alg
@@ -222,7 +248,9 @@ def objAlg : Obj → Option Ls.Alg
   | .svd _ => some .svd
   | .adj _ => none
 
-/-- the configured list does not resolve the defect: outside the property's quantifier -/
+/-- the configured list does not resolve the defect: outside `CfgOk` of `full_history_free_across_inputs_resolving` /
+    `full_answer_denotes_resolving` (and `SCfgOk` of the svd theorems), INSIDE `full_history_free_across_inputs` and
+    `full_answer_denotes` (a fresh object refuses; an answer read afterwards is the `Pending` state) -/
 def outsideF (inp : Full.Input) (s : FState) : Bool := inp.nullity != 0 && !inp.resolves (Full.eff inp s)
 def outsideS (inp : Full.Input) (s : SState) : Bool := inp.nullity != 0 && s.sub && !inp.resolves (s.list.getD [])
 
@@ -232,11 +260,16 @@ def regSvd (s : SState) : Reg := cfgReg (!s.sub) s.list
 
 def aInput (s : St) (p : Problem Float) : AInput :=
   let minx : Option (List Nat) := match p.reg with | .subset l => some l | _ => none
+  -- the envelope inside `Adj` is given the ORIGINAL problem (sparse branch): resolution facts from `resolvesP p`
   let envIn : EnvInput := match s.env with
-    | some f => f.toInput (resolvesDefault f.nullity)
+    | some f => f.toInputOf p s.sel
     | none => { n := p.n, nullity := s.nul .env, invp := fun i => i, inEnv := fun _ _ => true,
                 resolves := resolvesDefault (s.nul .env), qbbIn := fun _ _ => true }
-  { env := { envIn with id := s.sel }, chol := fInput p.n (s.nul .chol), gso := fInput p.n (s.nul .gso), svd := fInput p.n (s.nul .svd),
+  -- the full-matrix solvers are given the homogenised system: `Full.inputOf alg (dot problem)`
+  let fin : Full.Input × Full.Input × Full.Input := match s.ain with
+    | some t => t
+    | none => (fInput p.n (s.nul .chol), fInput p.n (s.nul .gso), fInput p.n (s.nul .svd))
+  { env := { envIn with id := s.sel }, chol := fin.1, gso := fin.2.1, svd := fin.2.2,
     minx := minx, rows := fun i => ((p.rows.getD (i - 1) #[]).toList.map (·.1)), id := s.sel, m := p.m, n := p.n }
 
 def numAdj (a : Except ErrKind (Answer Float)) : AOp → String
@@ -281,7 +314,7 @@ def step' (s : St) (line : String) : St × String :=
   match ts with
   | ["select", k] =>
     match k.toNat? with
-    | some k => if 1 ≤ k ∧ k ≤ s.probs.size then ({ s with prob := s.probs[k - 1]?, sel := k, obj := none, env := none }, "ok") else (s, "bad-op")
+    | some k => if 1 ≤ k ∧ k ≤ s.probs.size then ({ s with prob := s.probs[k - 1]?, sel := k, obj := none, env := none, dot := none, ain := none }, "ok") else (s, "bad-op")
     | none => (s, "bad-op")
   | ["reset_new", k] =>
     match k.toNat? with
@@ -299,7 +332,8 @@ def step' (s : St) (line : String) : St × String :=
         else ({ s' with obj := some (.svd (Full.sreset st)), finp := Full.inputOf .svd p' }, "ok")
       | some (.adj h) =>
         -- `set(data')`: the model's `set` does not look at the data; the new facts arrive with `info`/`envinfo`
-        ({ s' with obj := some (.adj (hastep h (.setData h.inp)).1) }, "ok")
+        let d := dotOf p'
+        ({ s' with obj := some (.adj (hastep h (.setData h.inp)).1), dot := d, ain := d.map ainOf }, "ok")
       | none => (s, "bad-op")
   | ["new", a, "solver"] =>
     if !p.unitCov then (s, "bad-op") else
@@ -314,7 +348,10 @@ def step' (s : St) (line : String) : St × String :=
     | _ => (s, "bad-op")
   | ["new", a, "adj"] =>
     match parseAlg a with
-    | some a => ({ s with obj := some (.adj (hainit (aInput s p) a)), env := none }, "ok")
+    | some a =>
+      let d := dotOf p
+      let s1 : St := { s with env := none, dot := d, ain := d.map ainOf }
+      ({ s1 with obj := some (.adj (hainit (aInput s1 p) a)) }, "ok")
     | none => (s, "bad-op")
   | ["info", a, n, nul] =>
     match parseAlg a, n.toNat?, nul.toNat? with
@@ -327,8 +364,16 @@ def step' (s : St) (line : String) : St × String :=
         if lsAlg a == alg && f.agrees alg p then (s, " ".intercalate ts)
         else (s, s!"info-does-not-describe-the-problem {algName a} n {n} nullity {k} model-n {(Full.inputOf alg p).n} model-defect {(Full.inputOf alg p).nullity}")
       | none =>
-        if n != p.n then (s, s!"info-does-not-describe-the-problem {algName a} n {n} model-n {p.n}")
-        else ({ s with nul := fun b => if b = a then k else s.nul b }, " ".intercalate ts)
+        match (if a = .env then none else s.dot) with
+        | some q =>
+          -- round 9, adj entry, chol / gso / svd: size and `defect()` read from a fresh `Adj` with that algorithm must
+          -- be those the numeric model computes for the homogenised system the machine runs on
+          let f : FInfo := ⟨n, k⟩
+          if f.agrees (lsAlg a) q then ({ s with nul := fun b => if b = a then k else s.nul b }, " ".intercalate ts)
+          else (s, s!"info-does-not-describe-the-problem {algName a} n {n} nullity {k} model-n {(Full.inputOf (lsAlg a) q).n} model-defect {(Full.inputOf (lsAlg a) q).nullity}")
+        | none =>
+          if n != p.n then (s, s!"info-does-not-describe-the-problem {algName a} n {n} model-n {p.n}")
+          else ({ s with nul := fun b => if b = a then k else s.nul b }, " ".intercalate ts)
     | _, _, _ => (s, "bad-op")
   | "envinfo" :: rest =>
     match parseInfo rest with
